@@ -218,6 +218,9 @@ CaseResult run_md(const RunCtx &ctx, TapeReader &t, unsigned size_hint) {
     if (const std::string *xc = ctx.x("xctor")) ctor_kind = (unsigned) atoi(xc->c_str());
     bool poison = t.chance(1, 8);
     if (poison) ctor_kind = 0; // the rejected and the real construction must use the same iterator type
+    // provenance of the object that answers: as built (1/2); a copy whose source was destroyed and its memory recycled; a copy whose
+    // source is alive but was assigned other points afterwards.  A copy must answer from its own storage.
+    const unsigned prov = (unsigned) t.below(4);
     std::vector<std::pair<Pt4, Pt4>> boxes;
     std::vector<std::string> box_kinds;
     if (c13 || mem) {
@@ -366,7 +369,7 @@ CaseResult run_md(const RunCtx &ctx, TapeReader &t, unsigned size_hint) {
         }
         res.label("after_rejected_construction");
     }
-    std::unique_ptr<Index> idx;
+    std::unique_ptr<Index> idx, source_kept;
     try {
         if (ctor_kind == 1 && sizeof(T) == 8 && fits32) {
             std::vector<decltype(to_tuple<D, uint32_t>(pts[0]))> narrow;
@@ -389,6 +392,25 @@ CaseResult run_md(const RunCtx &ctx, TapeReader &t, unsigned size_hint) {
             tuples.reserve(pts.size());
             for (auto &p: pts) tuples.push_back(to_tuple<D, T>(p));
             idx.reset(new Index(tuples.begin(), tuples.end()));
+        }
+        if (prov == 2) {
+            std::unique_ptr<Index> cp(new Index(*idx));
+            idx.reset();                       // the source is destroyed ...
+            std::vector<uint64_t> recycle(pts.size() + 8, 0xA5A5A5A5A5A5A5A5ull); // ... and memory of its size is handed out again and scribbled on
+            idx = std::move(cp);
+            res.label("object_is_a_copy_source_destroyed");
+            (void) recycle.data();
+        } else if (prov == 3) {
+            source_kept = std::move(idx);
+            idx.reset(new Index(*source_kept));
+            std::vector<Tuple> other;          // the source goes on to hold other points (mirrored, at most as many)
+            for (size_t i = 0; i < pts.size(); i += 2) {
+                Pt4 q = pts[i];
+                for (size_t d = 0; d < D; ++d) q[d] = cmax - q[d];
+                other.push_back(to_tuple<D, T>(q));
+            }
+            *source_kept = Index(other.begin(), other.end());
+            res.label("object_is_a_copy_source_reassigned");
         }
     } catch (const std::exception &e) {
         res.fail(std::string("construction threw on in-domain input: ") + e.what());
